@@ -485,6 +485,9 @@ func DownloadFolderHandler(rwc io.ReadWriter, fullPath string, fileTransfer *Fil
 		if err != nil {
 			return fmt.Errorf("error opening file: %w", err)
 		}
+		if _, err := file.Seek(dataOffset, io.SeekStart); err != nil {
+			return fmt.Errorf("error seeking to resume offset: %w", err)
+		}
 
 		// wr := bufio.NewWriterSize(rwc, 1460)
 		if _, err = io.Copy(rwc, io.TeeReader(file, fileTransfer.bytesSentCounter)); err != nil {
